@@ -501,3 +501,8 @@ Qed.
 Corollary root_keeps_table_size (stopf : Stats -> bool) fuel p hist tt r :
   root stopf fuel p hist tt = Some r -> t_len (ss_tt (rr_state r)) = t_len tt.
 Proof. intros H. apply (root_iterations_in_order stopf fuel p hist tt r H). Qed.
+
+Corollary answer_is_last_pv (stopf : Stats -> bool) fuel p hist tt r :
+  root stopf fuel p hist tt = Some r ->
+  rr_best r = None \/ rr_best r = match rev (rr_infos r) with [] => None | i :: _ => Some (i_pv i) end.
+Proof. intros H. apply (root_iterations_in_order stopf fuel p hist tt r H). Qed.
